@@ -28,17 +28,25 @@ type c04Input struct {
 	// Pre: the same Querier first answers a selection of the containers n1|n2, abandoned after Pre-1 records
 	// (0 = no earlier query).
 	Pre int `json:"pre,omitempty"`
+	// PreAlive: that earlier selection is not abandoned but kept open and read in turns with the main one (two
+	// selections of one Querier alive at once); it then selects every container, and must deliver each record once as well
+	PreAlive bool `json:"pre_alive,omitempty"`
 	// SameMsg: every record of every container carries the same message (records that coincide in timestamp and
 	// text are still distinct records)
 	SameMsg bool `json:"same_msg,omitempty"`
 	// IDLabel: container 0 carries the Docker labels container-id = id1 and container.name = n1 (a Docker label may be named
 	// like a built-in one; which log is read is decided by the container, not by its labels)
 	IDLabel bool `json:"id_label,omitempty"`
+	// Long: every message is 300 bytes longer (frames beyond any short-line fast path, one after the other)
+	Long bool `json:"long,omitempty"`
 }
 
 func c04Rec(in c04Input, i, j, ts int) (msg string, ns int64) {
 	if in.SameMsg {
 		return "same#0", int64(ts) * sec
+	}
+	if in.Long {
+		return strings.Repeat("x", 300) + fmt.Sprintf("c%d#%d", i, j), int64(ts) * sec
 	}
 	if !in.Empty {
 		return fmt.Sprintf("c%d#%d", i, j), int64(ts) * sec
@@ -139,12 +147,38 @@ func c04Oracle(in c04Input, o selectObs) string {
 		}
 		prevTS = ts
 	}
+	if in.PreAlive && in.Pre > 0 {
+		wantPre := map[string]int{}
+		n := 0
+		for i, seq := range in.Logs {
+			for j, ts := range seq {
+				msg, ns := c04Rec(in, i, j, ts)
+				wantPre[fmt.Sprintf("%s@%d", msg, ns)]++
+				n++
+			}
+		}
+		gotPre := map[string]int{}
+		for _, e := range o.PreOut {
+			gotPre[e]++
+		}
+		if len(o.PreOut) != n {
+			return fmt.Sprintf("the selection of all containers made earlier on the same Querier and read in turns with this one delivered %d records, its containers hold %d", len(o.PreOut), n)
+		}
+		for k, c := range wantPre {
+			if gotPre[k] != c {
+				return fmt.Sprintf("record %s appears %d times in the earlier selection (all containers) read in turns with this one, expected %d", k, gotPre[k], c)
+			}
+		}
+	}
 	return "" // (opening and closing of readers is C14's subject)
 }
 
 func c04Exec(c *vsched.Ctx, in c04Input) selectObs {
 	if in.Pre > 0 {
-		selectPre = &selectPreT{Only: "n1|n2", Drain: in.Pre - 1}
+		selectPre = &selectPreT{Only: "n1|n2", Drain: in.Pre - 1, Alive: in.PreAlive}
+		if in.PreAlive {
+			selectPre.Only = ".*" // as many containers as the main selection: whatever is sized by the earlier one fits the later one
+		}
 		defer func() { selectPre = nil }()
 	}
 	obs, _ := runSelect(c, c04Containers(in), in.Perm, logqlengine.SelectLogsParams{}, 0, 0, false, nil)
@@ -309,8 +343,10 @@ func c04Run(r *vkit.Run) {
 		emit(c04Input{Logs: logs, Mode: "bound", Bound: 1, TwoNames: true})
 		emit(c04Input{Logs: logs, Mode: "bound", Bound: 1, SameMsg: true})
 		emit(c04Input{Logs: logs, Mode: "bound", Bound: 1, IDLabel: true})
+		emit(c04Input{Logs: logs, Mode: "bound", Bound: 1, Long: true})
 		for pre := 1; pre <= 3; pre++ {
 			emit(c04Input{Logs: logs, Mode: "bound", Bound: 1, Pre: pre})
+			emit(c04Input{Logs: logs, Mode: "bound", Bound: 1, Pre: pre, PreAlive: true})
 		}
 	}
 	// (c) every completion order of the concurrent opens for N = 2..5.
